@@ -19,7 +19,7 @@ from fractions import Fraction
 
 import numpy as np
 
-from common import COQ, REPO, coq_bool, coq_list, coq_nat, coq_z, frac, qc, qc_mat, sh, shrink_list
+from common import COQ, REPO, source_pins, coq_bool, coq_list, coq_nat, coq_z, frac, qc, qc_mat, sh, shrink_list
 
 TRUSTED_BASE = [
     "Coq 8.16.1 kernel + coqc (vm_compute only in the concrete `_refuted` witnesses / non-vacuity examples and in the correspondence shards; no native_compute)",
@@ -41,6 +41,24 @@ RULE = ("streams: energy-prune (0..40 conformers, clusters/duplicates/chains/out
         "prune_diff_graph), prune (composition), select (find_lowest_energy_conformer tail with default thresholds), complex "
         "(1..3 molecules from a pool x charges x multiplicities x copy flag, plus the empty complex), rigid-body (implementation only); "
         "a case is non-trivial when something is deleted / an error is raised / more than one molecule is involved; distinct by full input")
+
+# every function of /repo that coq/C19/Model.v (and the exact oracles of this file that mirror the code's structure:
+# energy_stats / is_outlier / the expected conformer count of stream_rigid) was written from.  No translator: all pinned.
+PINS = [("autode/conformers/conformers.py", q) for q in (
+    "Conformers.lowest_energy", "Conformers.prune", "Conformers.prune_on_energy", "Conformers.prune_on_rmsd",
+    "Conformers.prune_diff_graph", "Conformers.remove_no_energy")] + [
+    ("autode/species/species.py", "Species.find_lowest_energy_conformer"),      # Model.select: order of the calls
+    ("autode/species/species.py", "Species._set_lowest_energy_conformer"),      # RuntimeError when lowest_energy is None
+    ("autode/utils.py", "requires_conformers"),                                 # NoConformers when nothing is left
+    ("autode/species/complex.py", "Complex.__init__"),                          # c_atoms / c_charge / c_mult / c_graph
+    ("autode/species/complex.py", "Complex.atom_indexes"),
+    ("autode/species/complex.py", "Complex.n_molecules"),
+    ("autode/species/complex.py", "Complex._generate_conformers"),              # conformer count, n < 2 case
+    ("autode/species/complex.py", "get_complex_conformer_atoms"),               # Model.rigid / push
+    ("autode/atoms.py", "Atoms.__add__"), ("autode/atoms.py", "Atoms.__radd__"),  # Model.add_atoms (reflected dispatch)
+    ("autode/mol_graphs.py", "union"),                                          # Model.union_from
+    ("autode/geom.py", "calc_heavy_atom_rmsd"),                                 # the oracle d: heavy atoms only, 0.0 without any
+]
 
 SLICE = ["lib/Sums.v", "lib/QcInst.v", "C19/Model.v", "C19/Lemmas.v", "C19/Props.v", "C19/Corr.v"]
 PRE = ("From Coq Require Import ZArith QArith Qcanon List Bool.\nFrom AV.lib Require Import QcInst.\n"
@@ -1090,6 +1108,10 @@ def run(ctx):
     full = not ctx.quick
     import autode  # noqa
     ctx.log("autode from", os.path.dirname(autode.__file__))
+    pins_changed = source_pins(ctx.pid, PINS)
+    ctx.cov["source_pins"] = {"pinned": len(PINS), "changed": pins_changed}
+    if pins_changed:
+        ctx.log("source pins changed:", pins_changed)
     # 1. proofs
     proofs_ok, info = ctx.proofs(SLICE, "C19/Props.v", "AV.C19.Props", extra_targets=["C19/Corr.vo"])
     ctx.log("proofs:", "ok" if proofs_ok else "BROKEN")
@@ -1137,6 +1159,12 @@ def run(ctx):
                       found_input=False)
     if not proofs_ok:
         ctx.proof_failure(info, found_any_input=(new_findings > 0))
+    if pins_changed and new_findings == 0 and not (bad or err) and proofs_ok and not stream_errors:
+        ctx.violation("hand model no longer pinned to the source: " + ", ".join(pins_changed),
+                      {"kind": "source-pin", "changed": pins_changed,
+                       "note": "the pinned functions changed since coq/C19/Model.v was written; the streams found no failing "
+                               "input and no model/implementation disagreement, but the model is no longer shown to describe the code"},
+                      found_input=False)
     if bad or err:
         if new_findings == 0:
             ctx.violation("model and implementation disagree (retained indices / error class) and no property-level oracle "
